@@ -302,6 +302,9 @@ func fwdCaseCoq(c *Case, o *Obs) string {
 	default:
 		obs = "FHang"
 	}
+	if len(srcs) == 1 && c.Fwd.Srcs[0].Kind == "copy1" {
+		return lib.CoqApp("FwdChild", "\n  "+srcs[0], "\n  "+obs) // a copy child read directly: no merge, no forwarder
+	}
 	return lib.CoqApp("FwdCase", "\n  "+lib.CoqList(srcs), "\n  "+obs)
 }
 
